@@ -4,11 +4,13 @@ import (
 	"encoding/json"
 	"fmt"
 	"io"
+	"math"
 
 	"github.com/siglens/siglens/pkg/ast/pipesearch"
 	"github.com/siglens/siglens/pkg/segment/query"
 	"github.com/siglens/siglens/pkg/segment/query/iqr"
 	"github.com/siglens/siglens/pkg/segment/query/processor"
+	"github.com/siglens/siglens/pkg/segment/structs"
 	sutils "github.com/siglens/siglens/pkg/segment/utils"
 )
 
@@ -24,6 +26,9 @@ type PipelineArgs struct {
 	// Parallel > 1: build the chains through the real SetupQueryParallelism with this many processors; chain i reads
 	// Streams[i]. If the query is not parallelised (one chain), nothing is run and {"chains":1} is returned.
 	Parallel int `json:"parallel,omitempty"`
+	// ScrollSize > 0: append what newQueryProcessorHelper appends for a paged request: head(from+size) → scroller(from)
+	ScrollFrom int `json:"scrollFrom,omitempty"`
+	ScrollSize int `json:"scrollSize,omitempty"`
 }
 
 type tableStreamer struct {
@@ -143,6 +148,18 @@ func pipelineOp(raw json.RawMessage) (interface{}, error) {
 			dps[i].SetStreams([]*processor.CachedStream{processor.NewCachedStream(dps[i-1])})
 		}
 		last = dps[len(dps)-1]
+	}
+	if a.ScrollSize > 0 {
+		if _, err := query.StartQuery(qid, false, nil, true); err != nil {
+			return map[string]interface{}{"runErr": "StartQuery: " + err.Error()}, nil
+		}
+		defer query.DeleteQuery(qid)
+		query.InitProgressForRRCCmd(math.MaxUint64, qid)
+		headDP := processor.NewHeadDP(&structs.HeadExpr{MaxRows: uint64(a.ScrollFrom + a.ScrollSize)})
+		headDP.SetStreams([]*processor.CachedStream{processor.NewCachedStream(last)})
+		scrollerDP := processor.NewScrollerDP(uint64(a.ScrollFrom), qid)
+		scrollerDP.SetStreams([]*processor.CachedStream{processor.NewCachedStream(headDP)})
+		last = scrollerDP
 	}
 	var final *iqr.IQR
 	var ferr error
